@@ -77,7 +77,8 @@ def fe_program(rng, nops):
         elif r < 78:
             steps.append('sq.%d' % rng.choice(anyr)); units.append(1)
         elif r < 84:
-            steps.append('sqn.%d.%d' % (rng.choice(anyr), rng.choice([0, 1, 2, 3, 5, 10, 50]))); units.append(1)
+            a = rng.choice(anyr); n = rng.choice([0, 1, 2, 3, 5, 10, 50])
+            steps.append('sqn.%d.%d' % (a, n)); units.append(units[a] if n == 0 else 1)      # zero squarings return the operand as it is (not carried)
         elif r < 90:
             steps.append('sq2.%d' % rng.choice(anyr)); units.append(1)
         elif r < 94:
